@@ -142,7 +142,15 @@ func c17Eval(t tb, c c17Case) {
 		if vN.Stage != vS.Stage || strings.Join(vN.factList(), ";") != strings.Join(vS.factList(), ";") || strings.Join(vN.Cycles, ";") != strings.Join(vS.Cycles, ";") {
 			oN.cleanup()
 			oS.cleanup()
-			violation(t, "decision-differs", fmt.Sprintf("normal mode: %s %v %v; stub mode: %s %v %v", vN.Stage, vN.factList(), vN.Cycles, vS.Stage, vS.factList(), vS.Cycles), one)
+			key := "decision-differs"
+			for _, l := range m.Labels {
+				// known class K3: a Go expression that cannot be valid Go is only noticed by the code formatter,
+				// and the stub never emits it
+				if strings.HasPrefix(l, "format-only:") && vS.Stage == "accept" && vN.Stage == "generate" {
+					key = "format-only-rejection:" + strings.TrimPrefix(l, "format-only:")
+				}
+			}
+			violation(t, key, fmt.Sprintf("normal mode: %s %v %v; stub mode: %s %v %v", vN.Stage, vN.factList(), vN.Cycles, vS.Stage, vS.factList(), vS.Cycles), one)
 			continue
 		}
 		if vN.Stage != "accept" {
@@ -307,6 +315,41 @@ func TestC17(t *testing.T) {
 		loadRegress(t, f, &c)
 		c17Eval(t, c)
 		col.Label("regress")
+	}
+	// configurations whose only defect is a Go expression that cannot be valid Go (keyword as identifier, parameter
+	// function argument that is no Go expression): enumerated per position
+	if ev.Mine(0) {
+		var c c17Case
+		for _, kw := range []string{"func", "type", "go", "range"} {
+			base := func() cfg.Config { return cfg.Config{Meta: cfg.Meta{Pkg: sp("app")}} }
+			add := func(class string, conf cfg.Config) {
+				c.Members = append(c.Members, c17Member{C: conf, Labels: []string{"format-only:" + class, "keyword:" + kw}})
+			}
+			x := base()
+			x.Services = []cfg.Service{{Name: "s", Ctor: sp(kw)}}
+			add("constructor-is-keyword", x)
+			x = base()
+			x.Services = []cfg.Service{{Name: "s", Value: sp(kw)}}
+			add("value-is-keyword", x)
+			x = base()
+			x.Services = []cfg.Service{{Name: "s", Ctor: sp("fx/lib.NewObj"), Tags: []cfg.Tag{{Name: "t"}}}}
+			x.Decorators = []cfg.Decorator{{Tag: "t", Fn: kw}}
+			add("decorator-is-keyword", x)
+			x = base()
+			x.Meta.Functions = []cfg.KV{{K: "f", V: kw}}
+			x.Params = []cfg.Param{{Name: "p", Val: cfg.Str("%f()%")}}
+			add("function-is-keyword", x)
+			x = base()
+			x.Services = []cfg.Service{{Name: "s", Ctor: sp("fx/lib.NewObj"), Args: []cfg.Val{cfg.Str("!value " + kw)}}}
+			add("value-argument-is-keyword", x)
+		}
+		for _, arg := range []string{`"`, `1 2`, `)(`, `func`} {
+			x := cfg.Config{Meta: cfg.Meta{Pkg: sp("app")}, Params: []cfg.Param{{Name: "p", Val: cfg.Str("%env(" + arg + ")%")}}}
+			c.Members = append(c.Members, c17Member{C: x, Labels: []string{"format-only:function-argument-not-go:parameter"}})
+			y := cfg.Config{Meta: cfg.Meta{Pkg: sp("app")}, Services: []cfg.Service{{Name: "s", Ctor: sp("fx/lib.NewObj"), Args: []cfg.Val{cfg.Str("%env(" + arg + ")%")}}}}
+			c.Members = append(c.Members, c17Member{C: y, Labels: []string{"format-only:function-argument-not-go:service-argument"}})
+		}
+		c17Eval(t, c)
 	}
 	batch := pick(16, 24)
 	setRapidChecks(pick(5, 45))
